@@ -20,7 +20,7 @@ re-spellings never reach a rule:
   N11 in the tail of a function an if-arm that ends in a bare `return` (in a loop body: a bare `continue`) is the same as an if/else with the
       following statements in the other arm: the else form is used (an empty arm negates the test)
   N12 `x += [a, b]`, `x.extend([a, b])` become `x.append(a); x.append(b)`; `x.extend(<generator or list comprehension>)` and
-      `x += [<list comprehension>]` become the for/if loops that append the element
+      `x += [<list comprehension>]` become the for/if loops that append the element; `for v in xs: x.append(v)` is `x.extend(xs)`
   N13 `d[k] if k in d else V`, `if k in d: x = d[k] else: x = V` and `x = V; if k in d: x = d[k]` (V a literal or a plain name; also under
       bool()/int()/str()/float() when V is that conversion's fixed point) become `d.get(k, V)`; `.get(k, None)` is `.get(k)`
   N14 a for statement that unpacks its elements (`for a, (b, c) in pairs`) reads them by position instead (one loop variable, a -> v[0],
@@ -585,6 +585,14 @@ class _Norm(ast.NodeTransformer):
     def visit_For(self, node):
         self.generic_visit(node)
         if self.fn_stack and isinstance(node, ast.For):
+            # N12: `for v in xs: out.append(v)` is `out.extend(xs)`
+            if len(node.body) == 1 and not node.orelse and isinstance(node.target, ast.Name) and isinstance(node.body[0], ast.Expr):
+                c = node.body[0].value
+                if isinstance(c, ast.Call) and isinstance(c.func, ast.Attribute) and c.func.attr == "append" and len(c.args) == 1 and not c.keywords \
+                        and isinstance(c.args[0], ast.Name) and c.args[0].id == node.target.id and _plain(c.func.value) \
+                        and not any(isinstance(n, ast.Name) and n.id == node.target.id for n in ast.walk(c.func.value)):
+                    ext = ast.Call(func=ast.Attribute(value=c.func.value, attr="extend", ctx=ast.Load()), args=[node.iter], keywords=[])
+                    return ast.fix_missing_locations(ast.copy_location(ast.Expr(value=ast.copy_location(ext, node)), node))
             self._index_form(node)
         if self.fn_stack:
             node.body = self._tail_form(node.body, ast.Continue) or [ast.copy_location(ast.Pass(), node)]
